@@ -5,8 +5,9 @@ C11  TLC-generated edit / `plz test` histories are replayed in a scratch reposit
      log outside the repository) are compared with the spec's property-level expectation (Fresh outcome, reuse only
      where a passing run on exactly the current runtime inputs exists in the REAL execution history); the spec's Fresh
      is itself cross-checked against a real fresh run (clean copy, empty plz-out, no cache).
-C24  TLC-generated before/after repositories with the spec's Direct / Affected sets are rendered into scratch
-     repositories (with a real git history for --since) and `plz query changes` is asked in both modes.
+C24  TLC-generated before/after repositories with the spec's Direct / Affected sets: every case goes through
+     query.Changes / query.DiffGraphs in-process (harness/changes.go, graphs parsed by the real interpreter), a sample is
+     rendered into scratch repositories (with a real git history for --since) and `plz query changes` is asked in both modes.
 """
 import hashlib
 import json
@@ -358,7 +359,7 @@ CLAIM11 = dict(
          "real RuntimeHash is a counterexample; one history per distinct reachable state is replayed against the real plz binary: exit "
          "status, per-target outcome from test_results.xml and the executed test commands (action log) are compared with the spec's "
          "expectation, and the expectation with a real fresh run of the same tree.",
-    note="Bounded: 2 tests, 4 files x 2 contents, <=2 (quick, sampled) / <=3 (thorough, sampled) edits, sequential invocations, no cache "
+    note="Bounded: 2 tests, 4 files x 2 contents, <=2 (quick, 100 sampled) / <=3 (thorough, 1400 sampled) edits, sequential invocations, no cache "
          "configured, one run per test (no flakes / --num_runs); reuse is judged against the REAL execution history of the replay; trusted: "
          "the action log written by the generated test commands, test_results.xml as the per-target report, TLC, SHA collision freedom.",
     technique="TLA+ spec TestReuse.tla model-checked with TLC; TLC-generated edit/test histories replayed e2e into the real plz binary and compared with the spec's fresh outcome, itself cross-checked by a real fresh run")
@@ -393,15 +394,15 @@ def run_c11(ctx):
             r = vlib.tlc(ctx, "TestReuse", "GEN_TestReuse_2s%d.cfg" % (ctx.seed % 3 + 1), workers=8, timeout=600)
             behs = uniq_sorted(r.behaviours)
             total = len(behs)
-            behs = stratified([b for b in behs if c11_nontrivial(b)], kinds_of, sample_size(120), random.Random(ctx.seed))
+            behs = stratified([b for b in behs if c11_nontrivial(b)], kinds_of, sample_size(100), random.Random(ctx.seed))
         else:
             r2 = vlib.tlc(ctx, "TestReuse", "GEN_TestReuse_2.cfg", workers=8, timeout=1500)
             r3 = vlib.tlc(ctx, "TestReuse", "GEN_TestReuse_3.cfg", workers=8, timeout=3000)
             b2, b3 = uniq_sorted(r2.behaviours), uniq_sorted(r3.behaviours)
             total = len(b2) + len(b3)
             rng = random.Random(ctx.seed)
-            behs = stratified([b for b in b2 if c11_nontrivial(b)], kinds_of, sample_size(1800), rng) \
-                + stratified([b for b in b3 if c11_nontrivial(b)], kinds_of, sample_size(1800), rng)
+            behs = stratified([b for b in b2 if c11_nontrivial(b)], kinds_of, sample_size(700), rng) \
+                + stratified([b for b in b3 if c11_nontrivial(b)], kinds_of, sample_size(700), rng)
     ctx.extra["histories_enumerated_by_tlc"] = total
     with ThreadPoolExecutor(max_workers=12) as ex:
         futs = [ex.submit(c11_replay, ctx, i, b, {}) for i, b in enumerate(behs)]
@@ -650,22 +651,23 @@ CLAIM24 = dict(
          "as a directory source, data files and data labels on a gentest, filegroups, require/provide) -- changed file sets, one-field definition "
          "edits, a new target, a configuration change -- with the property-level sets Direct and Affected and the algorithm of changes.go "
          "(closest-package ownership, HasSource, RuleHash diff, provide-resolved reverse dependencies up to a level); TLC checks that the algorithm "
-         "never misses and that each recorded flaw is a counterexample, and prints every case; each case is rendered into a scratch repository "
-         "with a real git history and `plz query changes` is run with a file list and with --since at level -1 and 0; a target of Affected "
-         "(level -1) or Direct (level 0) that is not printed is a violation; Affected itself is cross-checked against the targets a real "
+         "never misses and that each recorded flaw is a counterexample, and prints every case; every case is parsed by the real interpreter into "
+         "two real build graphs and put to query.Changes / query.DiffGraphs in-process, and a stratified sample is rendered into a scratch "
+         "repository with a real git history where `plz query changes` is run with a file list and with --since, at level -1 and 0; a target of "
+         "Affected (level -1) or Direct (level 0) that is not printed is a violation; Affected itself is cross-checked against the targets a real "
          "incremental build re-executes or whose outputs change.",
     note="Bounded: 5 target slots, 6 base repositories, <=2 changed files, one definition edit per case; levels -1 and 0 only; a dependent that "
          "`requires` what a provider provides is taken to depend on the provided target (weakest reading), so only effective edges propagate; "
          "file-list mode is asked only where no definition changed; manual-labelled targets, subrepos, deleted files and subincludes are not modelled; "
          "trusted: git, the generated commands' action log, TLC.",
-    technique="TLA+ spec Changes.tla model-checked with TLC; TLC-enumerated before/after cases replayed e2e into `plz query changes` (file list and --since on a real git history)")
+    technique="TLA+ spec Changes.tla model-checked with TLC; TLC-enumerated before/after cases replayed in-process into query.Changes/DiffGraphs and e2e into `plz query changes` (file list and --since on a real git history)")
 
 
 @register("C24", claim=CLAIM24)
 def run_c24(ctx):
     vlib.build_plz()
     ctx.rule = ("every before/after case of Changes.tla (6 base repositories x {1-2 changed files, one-field definition edit [x one changed file in thorough], "
-                "new target, configuration change}) enumerated by TLC; quick: seeded sample stratified by (number of files, reasons, modes); "
+                "new target, configuration change}) enumerated by TLC, all of them through the in-process binding and a seeded sample (50 quick / 600 thorough, stratified by number of files, reasons, modes) end to end; "
                 "non-trivial = Affected has a target beyond Direct or a definition/config edit; distinct by (before, after, files, config)")
     ctx.assumptions += ["a dependent that requires what a declared dependency provides depends on the provided target, not on the provider (effective edges)",
                         "reporting more than Affected is allowed",
@@ -698,9 +700,9 @@ def run_c24(ctx):
     for case in cases:
         nt = len(case["affected"]) > len(case["direct"]) or case["before"] != case["after"] or case["cfg"]
         ctx.count("in-process:" + c24_key(case), nontrivial=nt)
-    # binding (b): end to end, with a real git history; quick: a seeded stratified sample
-    if ctx.replay_only is None and (ctx.quick or sample_size(len(cases)) < len(cases)):
-        cases = stratified(cases, c24_class, sample_size(80 if ctx.quick else len(cases)), random.Random(ctx.seed))
+    # binding (b): end to end, with a real git history, on a seeded stratified sample (about 1 s per case)
+    if ctx.replay_only is None:
+        cases = stratified(cases, c24_class, sample_size(50 if ctx.quick else 600), random.Random(ctx.seed))
     with ThreadPoolExecutor(max_workers=12) as ex:
         futs = [ex.submit(c24_replay, ctx, i, c, {}) for i, c in enumerate(cases)]
         results = [(cases[i], f.result()) for i, f in enumerate(futs)]
@@ -713,4 +715,5 @@ def run_c24(ctx):
             ctx.violation(sig, det)
     if drift:
         ctx.drift("%d query mode(s) printed a different set than the algorithm model predicted (judged by the property only)" % drift)
-    ctx.exhaustive = not ctx.quick and ctx.replay_only is None   # every enumerated case in-process (and e2e unless capped)
+    # every enumerated case of the bound went through the in-process binding; the e2e binding takes a sample
+    ctx.exhaustive = ctx.replay_only is None
